@@ -181,10 +181,20 @@ package scheduler
 //@   props C04
 //@   modifies g.finishedAt
 
+// Scheduler.setup: exports the DAG-level environment, creates the log directory (not in a dry run) and builds one
+// handler node per configured handler — exactly those, each from its configured step.
 //@ fn (*Scheduler).setup(sc, ctx) (err)
-//@   props C04
-//@   trusted
-//@   modifies sc.handlers, heap(map(dag.HandlerType, *Node)), heap(alloc), ghost eff.env, ghost eff.fs
+//@   props C03 C04
+//@   modifies sc.handlers, heap(map(dag.HandlerType, *Node)), heap(alloc), ghost eff.env, ghost env.key, ghost env.val, ghost eff.fs, ghost fs.*, ghost obs.mkdir*
+//@   ensures [C03 dry_run_creates_no_directory] sc.dry ==> eff.fs == old(eff.fs)
+//@   ensures [C04 handler_nodes_are_the_configured_handlers] err == nil ==> (sc.handlers != nil &&
+//@        (has(sc.handlers, dag.HandlerOnExit) <==> sc.onExit != nil) && (has(sc.handlers, dag.HandlerOnSuccess) <==> sc.onSuccess != nil) &&
+//@        (has(sc.handlers, dag.HandlerOnFailure) <==> sc.onFailure != nil) && (has(sc.handlers, dag.HandlerOnCancel) <==> sc.onCancel != nil))
+//@   ensures [C04 handler_node_runs_the_configured_step] err == nil ==> (
+//@        (sc.onExit != nil ==> (sc.handlers[dag.HandlerOnExit] != nil && sc.handlers[dag.HandlerOnExit].data.Step.Name == sc.onExit.Name && sc.handlers[dag.HandlerOnExit].data.Step.Command == sc.onExit.Command && sc.handlers[dag.HandlerOnExit].data.State.Status == NodeStatusNone)) &&
+//@        (sc.onSuccess != nil ==> (sc.handlers[dag.HandlerOnSuccess] != nil && sc.handlers[dag.HandlerOnSuccess].data.Step.Name == sc.onSuccess.Name && sc.handlers[dag.HandlerOnSuccess].data.Step.Command == sc.onSuccess.Command)) &&
+//@        (sc.onFailure != nil ==> (sc.handlers[dag.HandlerOnFailure] != nil && sc.handlers[dag.HandlerOnFailure].data.Step.Name == sc.onFailure.Name && sc.handlers[dag.HandlerOnFailure].data.Step.Command == sc.onFailure.Command)) &&
+//@        (sc.onCancel != nil ==> (sc.handlers[dag.HandlerOnCancel] != nil && sc.handlers[dag.HandlerOnCancel].data.Step.Name == sc.onCancel.Name && sc.handlers[dag.HandlerOnCancel].data.Step.Command == sc.onCancel.Command)))
 
 // A handler node is run like a step: set up, executed once, torn down — and not at all in dry-run mode.
 //@ fn (*Scheduler).runHandlerNode(sc, ctx, node) (err)
@@ -444,7 +454,7 @@ package scheduler
 //@            heap(elems(string)), heap(elems(dag.Condition)),
 //@            ghost launch, ghost hruns, ghost hlog, ghost nsetup, ghost nexec, ghost execfail, ghost dirty, ghost ntear,
 //@            ghost eff.exec, ghost eff.env, ghost eff.fs, ghost eff.condfail, ghost eff.waited,
-//@            ghost fs.*, ghost fw.*, ghost bw.*, ghost obs.exists*, ghost obs.stat*, ghost chk.fresh,
+//@            ghost fs.*, ghost fw.*, ghost bw.*, ghost obs.exists*, ghost obs.stat*, ghost obs.mkdir*, ghost chk.fresh,
 //@            ghost obs.run_calls, ghost obs.run_err, ghost outvar.stores, ghost outvar.key, ghost outvar.val, ghost env.key, ghost env.val, ghost obs.buf_string
 //@   records eff.sched = old(eff.sched) + 1
 //@   ensures [C03 scheduling_keeps_the_graph] nodes_wf(g) && graph_wf(g)
@@ -661,8 +671,7 @@ package scheduler
 //@   ensures r == g.finishedAt
 //@ fn (*Scheduler).HandlerNode(sc, name) (n)
 //@   props C08
-//@   trusted
-//@   noeffect
+//@   ensures n == ite(has(sc.handlers, name), sc.handlers[name], nil)
 //@ fn (*Node).Data(n) (d)
 //@   props C08
 //@   ensures d == n.data
